@@ -5,6 +5,7 @@
 package files
 
 import (
+	"bytes"
 	"context"
 	"encoding/json"
 	"fmt"
@@ -70,6 +71,12 @@ func optBytes(v any) (b []byte, present bool) {
 	if len(l) == 1 {
 		if f, _ := l[0].(float64); f < 0 {
 			return nil, false
+		}
+	}
+	if len(l) == 2 { // [-2, n]: n bytes 'k' (long comments are not spelled out in the scripts)
+		if f, _ := l[0].(float64); f == -2 {
+			n, _ := l[1].(float64)
+			return bytes.Repeat([]byte{'k'}, int(n)), true
 		}
 	}
 	return bytesOf(v), true
